@@ -2,7 +2,7 @@
 use crate::rules::Rules;
 use crate::{lost, norm, tokens_norm, unparse_items, Block, Contracts, Ctx};
 use proc_macro2::Span;
-use quote::quote;
+use quote::{quote, ToTokens};
 use serde_json::{json, Value};
 use syn::visit_mut::VisitMut;
 
@@ -365,6 +365,48 @@ pub fn emit_fn(owner: Option<&str>, name: &str, mut f: syn::ItemFn, contracts: &
         }
     }
     ctx.counter = 0; // hoisted-bound names vx_n<k> are numbered per function
+    if ctx.on("R48") {
+        // R48: a function returning Result<Vec<_>, _> whose tail is `A.iter().map(|p| BODY).collect()` (collect into a Result: elements in
+        // order, stop at the first Err) -> push loop; BODY is inlined, so its `?` / `return Err(..)` leave the FUNCTION with that error,
+        // which is what collect would have returned
+        let ret_is_result_vec = match &f.sig.output { syn::ReturnType::Type(_, t) => norm(&t.to_token_stream().to_string()).starts_with("Result<Vec<"), _ => false };
+        if ret_is_result_vec {
+            if let Some(syn::Stmt::Expr(syn::Expr::MethodCall(col), None)) = f.block.stmts.last().cloned() {
+                if col.method == "collect" && col.args.is_empty() {
+                    if let syn::Expr::MethodCall(map) = &*col.receiver {
+                        if map.method == "map" && map.args.len() == 1 {
+                            if let (syn::Expr::Closure(cl), syn::Expr::MethodCall(it)) = (&map.args[0], &*map.receiver) {
+                                if it.method == "iter" && it.args.is_empty() && cl.inputs.len() == 1 {
+                                    let a = &it.receiver;
+                                    let pat = match &cl.inputs[0] { syn::Pat::Type(pt) => (*pt.pat).clone(), p => p.clone() };
+                                    let body = &cl.body;
+                                    let elem_ty: Option<syn::Type> = match &f.sig.output { syn::ReturnType::Type(_, t) => {
+                                        // Result<Vec<T>, E> -> Vec<T>
+                                        if let syn::Type::Path(tp) = &**t { tp.path.segments.last().and_then(|s| match &s.arguments { syn::PathArguments::AngleBracketed(ab) => ab.args.first().and_then(|g| match g { syn::GenericArgument::Type(t) => Some(t.clone()), _ => None }), _ => None }) } else { None }
+                                    }, _ => None };
+                                    let vty = elem_ty.unwrap_or_else(|| syn::parse_quote!(Vec<_>));
+                                    let n = f.block.stmts.len();
+                                    let new_stmts: Vec<syn::Stmt> = vec![
+                                        syn::parse_quote!(let mut vx_rc_out: #vty = Vec::new();),
+                                        syn::parse_quote!(let vx_rc_n = #a.len();),
+                                        syn::Stmt::Expr(syn::parse_quote!(for vx_rc_i in 0..vx_rc_n {
+                                            let #pat = &#a[vx_rc_i];
+                                            let vx_rc_item = match #body { Ok(vx_rc_v) => vx_rc_v, Err(vx_rc_e) => return Err(vx_rc_e) };
+                                            vx_rc_out.push(vx_rc_item);
+                                        }), None),
+                                        syn::Stmt::Expr(syn::parse_quote!(Ok(vx_rc_out)), None),
+                                    ];
+                                    f.block.stmts.truncate(n - 1);
+                                    f.block.stmts.extend(new_stmts);
+                                    ctx.used("R48");
+                                }
+                            }
+                        }
+                    }
+                }
+            }
+        }
+    }
     Rules { ctx }.visit_item_fn_mut(&mut f);
 
     let mut sig_block: Option<usize> = None;
